@@ -145,7 +145,7 @@ def num_permutation_codes(entity_cell):
 # ---------------------------------------------------------------------------------------------------
 # quadrature rule selection (documented behaviour, decided by R itself)
 # ---------------------------------------------------------------------------------------------------
-def integral_rule(integral, itype, cellname, entity_cell, tensor_product=False):
+def integral_rule(integral, itype, cellname, entity_cell, tensor_product=False, degree_shift=0):
     """(points on the reference integration entity, weights) for one UFL integral."""
     md = integral.metadata() or {}
     # quadrature elements define the rule
@@ -162,7 +162,7 @@ def integral_rule(integral, itype, cellname, entity_cell, tensor_product=False):
         return np.zeros((1, 0)), np.ones(1)
     q = md.get("quadrature_degree", -1)
     if q is None or q == "default" or (isinstance(q, (int, np.integer)) and q < 0):
-        q = int(np.max(md["estimated_polynomial_degree"]))
+        q = int(np.max(md["estimated_polynomial_degree"])) + degree_shift
     scheme = md.get("quadrature_rule", "default")
     ect = celltype(entity_cell)
     if scheme == "vertex":
@@ -548,7 +548,8 @@ ENTITY_DIM = {"cell": lambda t: t, "exterior_facet": lambda t: t - 1, "interior_
 class FormOracle:
     """R for one form: reference element tensors per (integral type, subdomain id)."""
 
-    def __init__(self, form, cmplx=False, tensor_product=False):
+    def __init__(self, form, cmplx=False, tensor_product=False, degree_shift=0):
+        self.degree_shift = degree_shift
         self.form = form
         self.cmplx = cmplx
         self.tensor_product = tensor_product
@@ -609,7 +610,7 @@ class FormOracle:
         for itd in self.itds_for(itype, sid):
             for itg in itd.integrals:
                 ecell = self.entity_cell(itype, entities[0])
-                pts, wts = integral_rule(itg, itype, self.cellname, ecell, self.tensor_product)
+                pts, wts = integral_rule(itg, itype, self.cellname, ecell, self.tensor_product, self.degree_shift)
                 P = {}
                 for s, ent, code in zip(sides, entities, codes):
                     if itype == "cell":
